@@ -584,6 +584,37 @@ def run_loky_mode(c):
         shutil.rmtree(wd, ignore_errors=True)
 
 
+def _task_seq(x, k):
+    m = mr._get_backing_memmap(x)
+    d = {"digest": digest(x), "first": repr(x.flat[0]), "memmap": m is not None, "mode": getattr(m, "mode", None),
+         "writeable": bool(x.flags.writeable), "k": k}
+    if x.flags.writeable:
+        x.flat[0] = 99          # an in-place write by the task: must never reach the caller's array
+    return d
+
+
+def run_loky_seq(c):
+    """a SEQUENCE of Parallel calls in one process, each with its own (mmap_mode, max_nbytes): every call must get the
+    reducers of ITS settings"""
+    from joblib import Parallel, delayed
+    dt = mk_dtype(c["dtype"])
+    shape = tuple(c["shape"])
+    x = (np.arange(int(np.prod(shape))).reshape(shape) % 50).astype(dt)
+    orig = x.copy()
+    steps = []
+    try:
+        for st in c["steps"]:
+            kw = {"n_jobs": 2, "backend": c.get("backend", "loky"), "max_nbytes": st["max_nbytes"], "timeout": 60}
+            if st["mmap_mode"] != "default":
+                kw["mmap_mode"] = st["mmap_mode"]
+            got = Parallel(**kw)(delayed(_task_seq)(x, k) for k in range(st.get("tasks", 4)))
+            steps.append({"got": got, "caller_array_intact": bool(np.array_equal(x, orig)), "nbytes": int(x.nbytes),
+                          "want_digest": digest(orig), "want_first": repr(orig.flat[0])})
+    except BaseException as e:  # noqa
+        return {"steps": steps, "parallel_raise": "%s: %s" % (type(e).__name__, str(e)[:160])}
+    return {"steps": steps}
+
+
 # ------------------------------------------------------------------ load() dispatch matrix
 class OtherReader:
     """a readable, seekable, peekable object that is neither a raw file nor a BytesIO"""
@@ -777,7 +808,7 @@ def main():
             c = json.loads(line)
             try:
                 r = {"array": run_array, "reduce": run_reduce, "loky": run_loky, "loadmatrix": run_loadmatrix,
-                     "route": run_route, "loky_loop": run_loky_loop, "loky_mode": run_loky_mode}[c["mode"]](c)
+                     "route": run_route, "loky_loop": run_loky_loop, "loky_mode": run_loky_mode, "loky_seq": run_loky_seq}[c["mode"]](c)
             except BaseException as e:  # harness-level failure is reported, not hidden
                 import traceback
                 r = {"harness_error": repr(e), "tb": traceback.format_exc()[-800:]}
